@@ -52,7 +52,7 @@ RtVariants(c) ==
     \cup {[cls |-> c, kind |-> "child", which |-> Children(c)[k].member, n |-> n] :
              k \in {j \in 1..Len(Children(c)) : Children(c)[j].cls \in Classes}, n \in 1..3}
     \cup {[cls |-> c, kind |-> "allchildren", which |-> "", n |-> 1]}
-    \cup {[cls |-> c, kind |-> x, which |-> "", n |-> 1] : x \in {"foreign_child", "foreign_attr", "text_special", "text_unicode"}}
+    \cup {[cls |-> c, kind |-> x, which |-> "", n |-> 1] : x \in {"foreign_child", "foreign_attr", "text_special", "text_unicode", "text_layout"}}
     \* an attribute the class does not know whose qualified name looks like a declared one: the element's own namespace
     \* plus the local name of the first declared (unqualified) attribute; alone and next to the declared attribute
     \cup {[cls |-> c, kind |-> x, which |-> Attrs(c)[k].member, n |-> 1] : x \in {"ownns_attr", "ownns_attr_both"},
